@@ -130,6 +130,9 @@ func init() {
 		Run:         runC03,
 		QuickBudget: 200,
 		Replay: func(raw json.RawMessage) (string, error) {
+			if s, ok, err := mixReplay(raw); ok {
+				return s, err
+			}
 			var r c03Replay
 			json.Unmarshal(raw, &r)
 			res := safeDecode(bytes.NewReader(vx.UnHex(r.Hex)))
@@ -248,6 +251,11 @@ func c03Check(ft byte, word []c03Sym, onState func(uint64)) ([]byte, string) {
 }
 
 func runC03(w *vx.W) {
+	mixLen := 3
+	if !w.Quick() {
+		mixLen = 4
+	}
+	mixFamily(w, mixLen)
 	alpha := c03Alphabet()
 	// the further file_id symbol is the known message 0 entry itself (first in list)
 	maxLen := 2
